@@ -241,7 +241,7 @@ fn plans(prop: &str, tier: Tier) -> Vec<Plan> {
         "C02" => {
             for v5 in [false, true] {
                 for (limit, variant) in [(1u16, 0u8), (2, 0), (2, 1), (2, 2), (3, 0), (3, 2), (4, 0)] {
-                    if q && (limit > 2 || variant == 2) {
+                    if q && limit > 3 {
                         continue;
                     }
                     let mut c = Cfg::base("C02", v5, limit);
@@ -268,12 +268,13 @@ fn plans(prop: &str, tier: Tier) -> Vec<Plan> {
         "C07" => {
             for v5 in [false, true] {
                 for (limit, variant) in [(1u16, 0u8), (2, 0), (3, 0), (2, 2), (3, 1), (4, 0)] {
-                    if q && (limit > 3 || variant != 0) {
+                    if q && limit > 3 {
                         continue;
                     }
                     let mut c = Cfg::base("C07", v5, limit);
                     c.variant = variant;
-                    v.push(Plan { cfg: c.clone(), depth_by_devs: if q { vec![6, 6] } else { vec![9, 9, 8] } });
+                    let dq = if variant == 0 { vec![6, 6] } else { vec![4, 4] };
+                    v.push(Plan { cfg: c.clone(), depth_by_devs: if q { dq } else { vec![9, 9, 8] } });
                 }
                 if !q {
                     let mut c = Cfg::base("C07", v5, 10);
@@ -315,12 +316,13 @@ fn plans(prop: &str, tier: Tier) -> Vec<Plan> {
         "C11" => {
             for v5 in [false, true] {
                 for (limit, variant) in [(2u16, 0u8), (3, 0), (3, 1), (4, 0)] {
-                    if q && (limit > 3 || variant != 0) {
+                    if q && limit > 3 {
                         continue;
                     }
                     let mut c = Cfg::base("C11", v5, limit);
                     c.variant = variant;
-                    v.push(Plan { cfg: c, depth_by_devs: if q { vec![7, 7, 7] } else { vec![10, 10, 10, 9] } });
+                    let dq = if variant == 0 { vec![7, 7, 7] } else { vec![5, 5, 5] };
+                    v.push(Plan { cfg: c, depth_by_devs: if q { dq } else { vec![10, 10, 10, 9] } });
                 }
             }
             // failures in the middle of a throttled replay (pending only partly re-sent)
